@@ -32,7 +32,7 @@ def items(tier, seed):
     # both sides of the 17/18-neutral switch of the documented search (lengths beyond NMAX; value and composition-only claims)
     seen = {it["name"] for it in out}
     for n0 in (17, 18, 19):
-        pairs = [(1, 5), (1, 7), (2, 7), (2, 2), (1, 1), (3, 6)] if tier == "quick" else [(a, b) for a in range(0, 5) for b in range(0, 11)]
+        pairs = [(1, 5), (1, 7), (2, 7), (2, 2), (1, 1), (3, 6)] if tier == "quick" else [(a, b) for a in range(0, 4) for b in range(0, 9)]
         for (a, b) in pairs:
             for (x, y) in ((a, b), (b, a)):
                 N = n0 + x + y
